@@ -826,6 +826,7 @@ func runC12(c *Ctx) {
 	m, r := c.M, c.R
 	c.St.Rule = "Go values of every supported dynamic type (all integer widths at their boundaries, float32 classes, every map/slice flavour, nesting) and unsupported types, through every insertion entry point, observed through Get, TypeOf and all six typed getters; non-trivial = not a canonical scalar; distinct by (value, entry point)"
 	c.rawBytes("C12")
+	c.indexSpellings("C12") // the tree form is an entry point: the slot a value enters is the slot every reader looks at
 	var vals []*GV
 	for _, w := range []string{"i8", "i16", "i32", "i64", "u", "u8", "u16", "u32", "u64"} {
 		vals = append(vals, widthValues(w)...)
@@ -1630,6 +1631,7 @@ func runC19(c *Ctx) {
 	c.nestedClear()
 	c.derivedShrinkLarge()
 	c.indexSpellings("C19")
+	c.nonASCIIKeysDerived()
 	for lvl := 1; lvl <= 2; lvl++ {
 		for rep := 0; rep < c.N(3, 30); rep++ {
 			m.Case(fmt.Sprintf("fluent-level-%d", lvl))
